@@ -460,3 +460,32 @@ def run_body(self, fr, h, st, body):
     r = self.run_region(fr, ent, body, h)
     r['returns'] = returns + r['returns']
     return r
+
+
+def shape_sig(self, v, depth=0):
+    """variant structure of a value (so that Some/None, Ok/Err are never merged together)"""
+    if isinstance(v, AdtV):
+        if v.fields is None:
+            return ('?',)
+        if depth > 3:
+            return (v.variant,)
+        return (v.variant,) + tuple(shape_sig(self, f, depth + 1) for f in v.fields if isinstance(f, (AdtV, UnionV)))
+    if isinstance(v, UnionV):
+        return ('u', v.active)
+    return ()
+
+
+def merge_by_shape(self, fr, b, states):
+    groups = {}
+    for st in states:
+        sig = []
+        for loc in live_locations(self, fr, b, st):
+            if loc[0] == 'L' and loc[1] == fr.fid:
+                v = get_loc(st, loc)
+                if isinstance(v, (AdtV, UnionV)):
+                    sig.append((loc[2], shape_sig(self, v)))
+        groups.setdefault(tuple(sig), []).append(st)
+    out = []
+    for sig, sts in groups.items():
+        out.append(sts[0] if len(sts) == 1 else merge(self, fr, b, sts))
+    return out
